@@ -71,7 +71,10 @@ pub fn bases() -> Vec<Base> {
                             for (aname, pair) in [("86-00", [0x86u8, 0x00]), ("08-dd", [0x08, 0xdd]), ("08-01", [0x08, 0x01]), ("86-de", [0x86, 0xde]), ("dd-86", [0xdd, 0x86])] {
                                 let mut f = frame.clone();
                                 f[12..14].copy_from_slice(&pair);
-                                v.push(Base { name: format!("{}-ihl5-raw-bytes-12-13-{aname}-{}", if v6 { "v6" } else { "v4" }, if flags == SYN { "syn" } else { "data" }), frame: f, ip: 0, v6, ihl });
+                                v.push(Base { name: format!("{}-ihl5-raw-bytes-12-13-{aname}-{}", if v6 { "v6" } else { "v4" }, if flags == SYN { "syn" } else { "data" }), frame: f.clone(), ip: 0, v6, ihl });
+                                // ... followed by a byte that reads like the start of an IPv4 / IPv6 header for whoever skips 14 bytes
+                                f[14] = if v6 { 0x60 } else { 0x45 };
+                                v.push(Base { name: format!("{}-ihl5-raw-bytes-12-14-{aname}-{:02x}-{}", if v6 { "v6" } else { "v4" }, f[14], if flags == SYN { "syn" } else { "data" }), frame: f, ip: 0, v6, ihl });
                             }
                         }
                         v.push(Base { name: format!("{}-ihl{}-{}-{}{tag}", if v6 { "v6" } else { "v4" }, ihl_field, if eth { "eth" } else { "raw" }, if flags == SYN { "syn" } else { "data" }), frame, ip: if eth { 14 } else { 0 }, v6, ihl });
@@ -258,7 +261,7 @@ pub fn run(thorough: bool) -> Outcome {
     });
     Outcome {
         report: rep,
-        rule: "88 base frames (incl. raw-IP packets whose bytes 12/13 are near misses of an IP EtherType) (IPv4 header-length fields 0..15 and IPv6, Ethernet and raw, SYN and data segment): every truncation x every worker count 1..64 (valid index, deterministic, complete frames never discarded); every byte that is not structural (version/IHL, protocol, ethertype) rewritten to every value of the tier's value set x worker counts: the index may change only for identity bytes (TCP: source address; HTTP/TLS: addresses and ports); truncations keeping the identity give the same index, and so do extensions of the frame to IP-part lengths 1500 .. 65535, 65536 .. 65536+64, 70000, 131072(+20); HTTP index equal for the swapped direction; distinct = distinct (pool, workers, index) outcomes".into(),
+        rule: "108 base frames (incl. raw-IP packets whose bytes 12/13 are near misses of an IP EtherType) (IPv4 header-length fields 0..15 and IPv6, Ethernet and raw, SYN and data segment): every truncation x every worker count 1..64 (valid index, deterministic, complete frames never discarded); every byte that is not structural (version/IHL, protocol, ethertype) rewritten to every value of the tier's value set x worker counts: the index may change only for identity bytes (TCP: source address; HTTP/TLS: addresses and ports); truncations keeping the identity give the same index, and so do extensions of the frame to IP-part lengths 1500 .. 65535, 65536 .. 65536+64, 70000, 131072(+20); HTTP index equal for the swapped direction; distinct = distinct (pool, workers, index) outcomes".into(),
         exhaustive: true,
         bounds: json!({"bases": bs.len(), "byte_values": values.len(), "worker_counts_for_rewrites": workers.len()}),
     }
